@@ -17,6 +17,8 @@ Section Theorems.
   Variable sdo_of : list modid -> opts -> nat.
   Variable thash : list (modid * list modid) -> modid -> nat.
   Variable ign_of : modid -> stamp -> opts -> bool.
+  Variable pkg_of : modid -> stamp -> bool.
+  Variable parent_of : modid -> option modid.
   Variable blocker : modid -> content -> bool.
   (* contract, monitored not proved: the analysis of an SCC is a function of the SET of member sources (as SEEN: text and
      kind), the options and the lower interfaces it reads.  No uniqueness assumption.  Recorded violation: F10. *)
@@ -24,30 +26,30 @@ Section Theorems.
   Hypothesis GC : GraphContract analyze sccs_of reach thash.
 
   Notation CacheOK := (CacheOK content_of view_of imports probes implicits analyze reach thash blocker).
-  Notation SideOK := (SideOK content_of view_of imports probes implicits sccs_of reach ign_of).
-  Notation ProgOK := (ProgOK content_of view_of imports probes implicits sccs_of reach ign_of).
-  Notation HistOK := (HistOK content_of view_of imports probes implicits analyze sccs_of reach sdo_of thash ign_of blocker).
-  Notation warm := (warm content_of view_of imports probes analyze sccs_of reach sdo_of thash ign_of blocker).
-  Notation cold := (cold content_of view_of imports probes analyze sccs_of reach sdo_of thash ign_of blocker).
-  Notation runs := (runs content_of view_of imports probes analyze sccs_of reach sdo_of thash ign_of blocker).
-  Notation run := (run content_of view_of imports probes analyze sccs_of reach sdo_of thash ign_of).
+  Notation SideOK := (SideOK content_of view_of imports probes implicits sccs_of reach ign_of pkg_of parent_of).
+  Notation ProgOK := (ProgOK content_of view_of imports probes implicits sccs_of reach ign_of pkg_of parent_of).
+  Notation HistOK := (HistOK content_of view_of imports probes implicits analyze sccs_of reach sdo_of thash ign_of pkg_of parent_of blocker).
+  Notation warm := (warm content_of view_of imports probes analyze sccs_of reach sdo_of thash ign_of pkg_of parent_of blocker).
+  Notation cold := (cold content_of view_of imports probes analyze sccs_of reach sdo_of thash ign_of pkg_of parent_of blocker).
+  Notation runs := (runs content_of view_of imports probes analyze sccs_of reach sdo_of thash ign_of pkg_of parent_of blocker).
+  Notation run := (run content_of view_of imports probes analyze sccs_of reach sdo_of thash ign_of pkg_of parent_of).
 
   Theorem run_preserves_CacheOK : forall c fs o now,
     CacheOK c -> GenBound c now -> SideOK c o fs -> Proofs.FSOK fs ->
     CacheOK (snd (warm c fs o now)) /\ GenBound (snd (warm c fs o now)) (S now).
-  Proof. exact (p_run_preserves content_of view_of imports probes implicits analyze sccs_of reach sdo_of thash ign_of blocker AC GC). Qed.
+  Proof. exact (p_run_preserves content_of view_of imports probes implicits analyze sccs_of reach sdo_of thash ign_of pkg_of parent_of blocker AC GC). Qed.
 
   (* SideOK c o fs = ProbeFresh (F6) /\ KindStable (F7) /\ ImplicitStable (F9) /\ SccFresh (F11); ProgOK o fs = the
      program has no dangling implicit submodule reference (F9, cold side).  All decidable, see below. *)
   Theorem warm_eq_cold : forall c fs o n n',
     CacheOK c -> GenBound c n -> SideOK c o fs -> ProgOK o fs -> Proofs.FSOK fs ->
     output fs (warm c fs o n) = output fs (cold fs o n').
-  Proof. exact (p_warm_eq_cold content_of view_of imports probes implicits analyze sccs_of reach sdo_of thash ign_of blocker AC GC). Qed.
+  Proof. exact (p_warm_eq_cold content_of view_of imports probes implicits analyze sccs_of reach sdo_of thash ign_of pkg_of parent_of blocker AC GC). Qed.
 
   Theorem warm_eq_cold_all_histories_partial : forall (h : list (FS * opts)) (fs : FS) (o : opts) (n' : nat),
     HistOK empty_store 0 h -> SideOK (runs empty_store 0 h) o fs -> ProgOK o fs -> Proofs.FSOK fs ->
     output fs (warm (runs empty_store 0 h) fs o (length h)) = output fs (cold fs o n').
-  Proof. exact (p_history_partial content_of view_of imports probes implicits analyze sccs_of reach sdo_of thash ign_of blocker AC GC). Qed.
+  Proof. exact (p_history_partial content_of view_of imports probes implicits analyze sccs_of reach sdo_of thash ign_of pkg_of parent_of blocker AC GC). Qed.
 
   (* after a run the source hash, interface hash and effective error_lines recorded for every module of the program are a
      function of (files, options): they do not depend on the cache the run started from *)
@@ -59,7 +61,7 @@ Section Theorems.
       s_meta (snd (run c2 fs o n2)) m = Some e2 -> s_ex (snd (run c2 fs o n2)) m = Some x2 ->
       m_hash e1 = m_hash e2 /\ m_ihash e1 = m_ihash e2 /\
       (if ign_of m s o then [] else x_errors x1) = (if ign_of m s o then [] else x_errors x2).
-  Proof. exact (p_cache_function content_of view_of imports probes implicits analyze sccs_of reach sdo_of thash ign_of blocker AC GC). Qed.
+  Proof. exact (p_cache_function content_of view_of imports probes implicits analyze sccs_of reach sdo_of thash ign_of pkg_of parent_of blocker AC GC). Qed.
 
   (* the side conditions are decidable predicates of (cache, options, files) *)
   Theorem probe_fresh_decides : forall c o fs,
@@ -69,14 +71,14 @@ Section Theorems.
     kind_stable content_of view_of ign_of c o fs = true -> KindStable content_of view_of ign_of c o fs.
   Proof. exact (kind_stable_sound content_of view_of ign_of). Qed.
   Theorem implicit_stable_decides : forall c o fs,
-    NoDup (concat (sccs_of (depmap content_of view_of imports probes ign_of c o fs))) ->
-    implicit_stable content_of view_of imports probes implicits sccs_of reach ign_of c o fs = true ->
-    ImplicitStable content_of view_of imports probes implicits sccs_of reach ign_of c o fs.
-  Proof. exact (implicit_stable_sound content_of view_of imports probes implicits sccs_of reach ign_of). Qed.
+    NoDup (concat (sccs_of (depmap content_of view_of imports probes ign_of pkg_of parent_of c o fs))) ->
+    implicit_stable content_of view_of imports probes implicits sccs_of reach ign_of pkg_of parent_of c o fs = true ->
+    ImplicitStable content_of view_of imports probes implicits sccs_of reach ign_of pkg_of parent_of c o fs.
+  Proof. exact (implicit_stable_sound content_of view_of imports probes implicits sccs_of reach ign_of pkg_of parent_of). Qed.
   Theorem scc_stable_decides : forall c o fs,
-    scc_stable content_of view_of imports probes sccs_of ign_of c o fs = true ->
-    SccFresh content_of view_of imports probes sccs_of ign_of c o fs.
-  Proof. exact (scc_stable_sound content_of view_of imports probes sccs_of ign_of). Qed.
+    scc_stable content_of view_of imports probes sccs_of ign_of pkg_of parent_of c o fs = true ->
+    SccFresh content_of view_of imports probes sccs_of ign_of pkg_of parent_of c o fs.
+  Proof. exact (scc_stable_sound content_of view_of imports probes sccs_of ign_of pkg_of parent_of). Qed.
 End Theorems.
 
 Print Assumptions run_preserves_CacheOK.
@@ -110,6 +112,8 @@ Definition ex_thash (dm : list (modid * list modid)) (m : modid) : nat := 0.
 Definition ex_sdo (l : list modid) (o : opts) : nat := length l.
 Definition ex_ign (m : modid) (s : stamp) (o : opts) : bool := Nat.eqb m 7.
 Definition ex_blocker (m : modid) (c : content) : bool := Nat.eqb c 99.
+Definition ex_pkg (m : modid) (s : stamp) : bool := false.
+Definition ex_parent (m : modid) : option modid := None.
 
 Fact ex_one : forall (l : list modid) L1 S0 L2, [l] = L1 ++ S0 :: L2 -> L1 = [] /\ S0 = l.
 Proof.
@@ -159,8 +163,8 @@ Proof.
 Qed.
 
 Definition ex_o := {| o_snap := 1; o_version := 1; o_plugin := 0 |}.
-Definition W pr im sccs := warm ex_content_of ex_view_of ex_imports pr (ex_analyze pr im) sccs ex_reach ex_sdo ex_thash ex_ign ex_blocker.
-Definition Cold pr im sccs := cold ex_content_of ex_view_of ex_imports pr (ex_analyze pr im) sccs ex_reach ex_sdo ex_thash ex_ign ex_blocker.
+Definition W pr im sccs := warm ex_content_of ex_view_of ex_imports pr (ex_analyze pr im) sccs ex_reach ex_sdo ex_thash ex_ign ex_pkg ex_parent ex_blocker.
+Definition Cold pr im sccs := cold ex_content_of ex_view_of ex_imports pr (ex_analyze pr im) sccs ex_reach ex_sdo ex_thash ex_ign ex_pkg ex_parent ex_blocker.
 
 (* a history on which everything is fine: an edit changes the diagnostics of an unchanged module, a syntax error
    (text 99 = stamp 198) aborts a run and leaves the cache usable; all side conditions evaluate to true *)
@@ -173,10 +177,10 @@ Example ex_history_outputs :
   let c3 := snd (W ex_none ex_none ex_sccs c2 ex_fs3 ex_o 2) in
   (output ex_fs1 (W ex_none ex_none ex_sccs empty_store ex_fs1 ex_o 0), output ex_fs2 (W ex_none ex_none ex_sccs c1 ex_fs2 ex_o 1),
    output ex_fs3 (W ex_none ex_none ex_sccs c2 ex_fs3 ex_o 2), output ex_fs2 (W ex_none ex_none ex_sccs c3 ex_fs2 ex_o 3),
-   scc_stable ex_content_of ex_view_of ex_imports ex_none ex_sccs ex_ign c1 ex_o ex_fs2,
+   scc_stable ex_content_of ex_view_of ex_imports ex_none ex_sccs ex_ign ex_pkg ex_parent c1 ex_o ex_fs2,
    probe_fresh ex_content_of ex_view_of ex_none ex_ign c1 ex_o ex_fs2,
    kind_stable ex_content_of ex_view_of ex_ign c1 ex_o ex_fs2,
-   implicit_stable ex_content_of ex_view_of ex_imports ex_none ex_none ex_sccs ex_reach ex_ign c1 ex_o ex_fs2)
+   implicit_stable ex_content_of ex_view_of ex_imports ex_none ex_none ex_sccs ex_reach ex_ign ex_pkg ex_parent c1 ex_o ex_fs2)
   = (Some ([(5, Some [9]); (2, Some [])], true), Some ([(5, Some [11]); (2, Some [])], true),
      None, Some ([(5, Some [11]); (2, Some [])], true), true, true, true, true).
 Proof. vm_compute. reflexivity. Qed.
@@ -184,7 +188,7 @@ Proof. vm_compute. reflexivity. Qed.
 (* ------------------------------------------------------------------ the FULL statement is refuted: F6, F7, F9 *)
 Definition refuted pr im (h : list (FS * opts)) (fs : FS) : Prop :=
   output fs (W pr im ex_sccs2 (runs ex_content_of ex_view_of ex_imports pr (ex_analyze pr im) ex_sccs2 ex_reach ex_sdo ex_thash
-                                   ex_ign ex_blocker empty_store 0 h) fs ex_o (length h))
+                                   ex_ign ex_pkg ex_parent ex_blocker empty_store 0 h) fs ex_o (length h))
   <> output fs (Cold pr im ex_sccs2 fs ex_o 0).
 
 (* F6 (hand history 9001): module 1 = `from pkg import name` (view 6 probes module 3 = pkg.name); pkg/name.py is added *)
@@ -209,18 +213,18 @@ Example refutations_caught_by_side_conditions :
   let c9 := snd (W ex_none ex_implicits ex_sccs2 empty_store [(1, 12)] ex_o 0) in
   (probe_fresh ex_content_of ex_view_of ex_probes ex_ign c6 ex_o [(1, 6); (3, 4)],
    kind_stable ex_content_of ex_view_of ex_ign c7 ex_o [(1, 5); (2, 9)],
-   implicit_stable ex_content_of ex_view_of ex_imports ex_none ex_implicits ex_sccs2 ex_reach ex_ign c9 ex_o [(1, 12); (3, 4)])
+   implicit_stable ex_content_of ex_view_of ex_imports ex_none ex_implicits ex_sccs2 ex_reach ex_ign ex_pkg ex_parent c9 ex_o [(1, 12); (3, 4)])
   = (false, false, false).
 Proof. vm_compute. reflexivity. Qed.
 
 (* the full statement of Statement.v is therefore false for an instance satisfying the analysis contract *)
 Theorem warm_equals_cold_refuted :
-  exists content_of view_of imports probes implicits analyze sccs_of reach sdo_of thash ign_of blocker,
+  exists content_of view_of imports probes implicits analyze sccs_of reach sdo_of thash ign_of pkg_of parent_of blocker,
     AnalysisContract imports probes implicits analyze /\
-    ~ warm_equals_cold_for_all_histories content_of view_of imports probes analyze sccs_of reach sdo_of thash ign_of blocker.
+    ~ warm_equals_cold_for_all_histories content_of view_of imports probes analyze sccs_of reach sdo_of thash ign_of pkg_of parent_of blocker.
 Proof.
   exists ex_content_of, ex_view_of, ex_imports, ex_none, ex_none, (ex_analyze ex_none ex_none), ex_sccs2, ex_reach, ex_sdo, ex_thash,
-         ex_ign, ex_blocker.
+         ex_ign, ex_pkg, ex_parent, ex_blocker.
   split; [apply analysis_contract_satisfiable|].
   intro H. specialize (H [([(1, 5); (2, 8)], ex_o)] [(1, 5); (2, 9)] ex_o 0).
   assert (A : forall fs' o', In (fs', o') [([(1, 5); (2, 8)], ex_o)] -> Statement.FSOK fs').
